@@ -8,7 +8,8 @@ from mvf import core, gen, harness, schedprops
 PROP = "C10"
 LEVEL = "exploration"
 RULE = ("Hypothesis-generated (scenario, schedule) cases with lazy_stepping=True (fast producers, slow consumers, "
-        "chains, fan-out, group crossings; schedules that release producers first); the history monitor checks at "
+        "chains, fan-out, group crossings; schedules that release producers first; also real-time mode on the virtual "
+        "clock with consumers that take several periods); the history monitor checks at "
         "every step() begin of a producer that no direct consumer is in a step, or has a known demanded step, earlier "
         "than that time (mapped by the reference delay without shift/weak). Metamorphic control: the same case is "
         "re-run with lazy_stepping=False and must run ahead in a measured share of cases. non-trivial = the "
@@ -48,6 +49,25 @@ def shard(prop, tier, seed, shard, nshards):
     acc = core.Acc(PROP, budget_s=150 if tier == "quick" else 1500)
     n = 250 if tier == "quick" else 10000
     core.drive(gen.cases(min_sims=2, lazy=True, debug_ok=False), check_case, acc, n, seed * 1000 + shard)
+    # real-time mode is a configuration, too: fast producers, slow consumers on the virtual clock
+    from hypothesis import strategies as st
+    from mvf.props import c17
+
+    @st.composite
+    def rtcase(draw):
+        rtf = draw(st.sampled_from([0.125, 0.25, 0.5]))
+        n = draw(st.integers(2, 3))
+        until = draw(st.integers(3, 7))
+        steps = [draw(st.lists(st.integers(1, 2), min_size=1, max_size=2)) for _ in range(n)]
+        durs = [draw(st.lists(st.sampled_from([0.0, 0.5 * rtf, rtf, 2.5 * rtf, 5 * rtf]), min_size=1, max_size=3))
+                for _ in range(n)]
+        c = c17.build(n, rtf, 1.0, steps, durs, True, until, strict=False,
+                      jitter=draw(st.sampled_from([[], [rtf / 64] * 4])))
+        if draw(st.booleans()):
+            c["scenario"]["conns"] = [gen._c(x["dst"], "po", x["src"], "mi") for x in c["scenario"]["conns"]]
+        return c
+
+    core.drive(rtcase(), check_case, acc, 60 if tier == "quick" else 3000, seed * 1000 + 600 + shard)
     micro = sorted(gen.micro_scenarios().items())
     runs, complete = 0, True
     for i, (name, scn) in enumerate(micro):
